@@ -50,7 +50,7 @@ int main()
     try { mserialize::visit(tag, rec, in); } catch (const std::exception& ex) { err = kind(ex.what()); }
     std::string sing;
     try { sing = mserialize::singular(tag, tag) ? "1" : "0"; } catch (const std::exception& ex) { sing = kind(ex.what()); }
-    std::cout << "events=" << rec.ev << " rest=" << in.size() << " err=" << err << " singular=" << sing << "\n";
+    std::cout << "events=" << rec.ev << " rest=" << in.size() << " err=" << err << " singular=" << sing << "\n" << std::flush;
   }
   return 0;
 }
